@@ -102,7 +102,9 @@ def f_chain(small=False):
                                [call(L), call(K)]]  # noqa: E731
     tb = bodies(["A", "B", "L"], small=True) if not small else (
         [[call("A")], [call("B")], [call("L")], [call("A"), call("B")], [If([call("A")], [call("B")], has_else=True)],
-         [call("A"), call("L")], [If([call("A")]), If([call("L")])], [call("A", en="in")]])
+         [call("A"), call("L")], [If([call("A")]), If([call("L")])], [call("A", en="in")],
+         # the same mid method reached from two exclusive call sites (one call path per site)
+         [If([call("A")], [call("A")], has_else=True)], [Sw(1, [(0, [call("A")]), (1, [call("A", en="in")])])]])
     for nxa, nxb, nxl in itertools.product([False, True], repeat=3):
         for ma in mid_bodies("L", "K"):
             for mb in (mid_bodies("L", "K") if not small else [[call("L")], [call("K")]]):
@@ -195,6 +197,12 @@ def f_rel(n=2, on="both", extra=True):
             # relations between a transaction and a method
             yield D([[M("M0"), T("T0", []), T("T1", [call("M0")])]], [[r[0], "T0", "M0", r[1]]])
             yield D([[M("M0"), T("T0", []), T("T1", [call("M0")])]], [[r[0], "M0", "T0", r[1]]])
+        # explicit schedule_before(ready_dependent=True) between non-conflicting bodies
+        yield D([[M("M0"), M("M1"), T("T0", [call("M0")]), T("T1", [call("M1")])]], [["before_rd", "T0", "T1", None]])
+        yield D([[M("M0"), M("M1"), T("T0", [call("M0")]), T("T1", [call("M1")])]], [["before_rd", "M0", "M1", None]])
+        yield D([[M("M0"), M("M1"), T("T0", [call("M0", en="in")]), T("T1", [call("M1")])]], [["before_rd", "M0", "T1", None]])
+        yield D([[M("M0"), M("M1"), T("T0", [call("M0")]), T("T1", [If([call("M1")])]), T("T2", [])]],
+                [["before_rd", "T0", "M1", None], ["before_rd", "T0", "T2", None]])
         # shared exclusive method + prioritised explicit conflict elsewhere
         for r in RELS[1:4]:
             yield D([[M("M0"), M("M1"), T("T0", [call("M0")]), T("T1", [call("M0"), call("M1")]), T("T2", [call("M1")])]],
@@ -253,6 +261,8 @@ def f_val():
             yield D([[v, M("A", c), T("T0", [call("A")])]])
             yield D([[v, M("A", c), T("T0", [call("A", en="in")])]])
             yield D([[v, M("A", c), T("T0", [If([call("A")])]), T("T1", [call("V", arg=1)])]])
+            yield D([[v, M("A", c), T("T0", [If([call("A")], [call("A")], has_else=True)])]])
+            yield D([[v, M("A", c), M("B", [call("A")]), T("T0", [If([call("B")], [call("A")], has_else=True)])]])
 
 
 def f_prov():
